@@ -6,9 +6,18 @@ and the name of every directory under each stack (cache files excluded) is the s
 run — computed from the file system alone.  Oracle (i): outcome, flavors loaded and the reader's listing after
 every command (dry or not) equal the model's (`Model/Db.lean` under `Model/Cache.lean`, driver op "c15").
 
-Static part: the guard map (`c15_guardmap.py`): every call that can write in `Eups.declare / undeclare /
-assignTag / unassignTag / remove` with the `noaction` conditions dominating it must equal the list recorded
-beside the model (`c15_guardmap.json`).  A new write site or a lost guard is a broken correspondence."""
+Dynamic guard trace (round 3): in every child the four `Database` mutators, `shutil.rmtree` and `utils.copyfile` are
+wrapped; the calls that return are compared, in order, with the model's effect trace (`calls` observable, oracle (i))
+— for dry runs AND real runs, so the model's "what the real run would do" is tied too — and a dry run must have
+called none (`dry_run_calls_no_mutator`, oracle (ii), no model).  The child's audit hook (open for writing, create,
+remove, rename, mkdir, rmdir, utime, truncate, chmod) must show no event under a stack during a dry run, cache files
+excepted (`dry_run_writes_nothing`): unlike the byte hash this sees a file written and put back, or made and removed.
+
+Static part: the guard map (`c15_guardmap.py`), since round 3 an interprocedural, semantic summary: every write call
+reachable from `Eups.declare / undeclare / assignTag / unassignTag / remove` through methods of the class, with whether
+the `noaction` conditions along the call chain protect it, as a set of (chain of public methods, callee, guarded?).
+Extracting helpers, binding a stack to a local, turning `if not noaction:` into an early return leave it unchanged
+(harmless/H3-r1, H5-r3); a lost guard, a new unguarded write, a scratch file made inside the stack change it."""
 import os
 import time
 
@@ -25,8 +34,12 @@ RULE = ("cases = histories of 4-20 commands of the C06 generator plus remove (re
         "distinct history digests")
 TRUSTED = ["fork-per-command runner and tree hash of harness/lib_db.py (every file and directory name under each "
            "stack, whatever it is called; only cache files `*.pickleDB*` are excluded)",
-           "the AST walk of harness/c15_guardmap.py recognises write calls by the name of the callee; for scratch files "
-           "(mkstemp / mkdtemp / NamedTemporaryFile) the directory argument is part of the recorded site"]
+           "the call tracer of harness/lib_db.py (module attribute replacement of _Database.declare/undeclare/assignTag/"
+           "unassignTag, shutil.rmtree, eups.utils.copyfile in the forked child) and the audit hook (sys.addaudithook: "
+           "open with write flags, os.remove/rename/mkdir/rmdir/utime/truncate/chmod/chown/link/symlink)",
+           "the AST walk of harness/c15_guardmap.py recognises write calls by the name of the callee and follows "
+           "`self.<method>(...)` calls within class Eups; for scratch files (mkstemp / mkdtemp / NamedTemporaryFile) "
+           "the directory argument is part of the recorded row"]
 ASSUMPTIONS = ["every command - dry runs included - ends abnormally: the forked child leaves with os._exit, so atexit "
                "handlers do not run and whatever a dry run has put under a stack is still there when the tree is hashed; "
                "the scratch directory of the children (tempfile.tempdir) lies outside the stacks",
@@ -79,6 +92,24 @@ def check_case(ctx, case, steps, msteps):
             if rec.get("hash_same") is False:
                 ctx.fail("dry_run_bytes_unchanged", sub, dict(impl_obs, hash_same=False), None if model_obs is None else dict(model_obs, hash_same=True),
                          note="files under the stacks differ after the dry run: %s" % (rec.get("hash_diff"),))
+            if rec.get("calls"):
+                ctx.fail("dry_run_calls_no_mutator", sub, impl_obs, model_obs,
+                         note="the dry run called %s" % (rec["calls"][:4],))
+            if rec.get("dry_writes"):
+                ctx.fail("dry_run_writes_nothing", sub, dict(impl_obs, dry_writes=rec["dry_writes"][:10]), model_obs,
+                         note="the dry run opened for writing / created / removed / renamed under the stacks: %s" % (rec["dry_writes"][:6],))
+            cli = rec.get("cli")
+            if cli is not None:
+                # the same dry run as typed (`eups declare|undeclare|remove -n`): the property itself, no model
+                if "died" in cli:
+                    raise common.InfraError("command-line child died: %s" % (cli["died"],))
+                ctx.hist("cli dry %s/%s" % (cmd["op"], "rc=%s" % cli["rc"] if cli["exc"] is None else cli["exc"]))
+                ctx.hist("cli dry says something" if cli["would"] else "cli dry says nothing")
+                ctx.hist("cli dry took locks" if cli.get("locks") else "cli dry took no lock")
+                if not cli["hash_same"] or cli["writes"] or cli["calls"]:
+                    ctx.fail("cli_dry_run_changes_nothing", sub, {"cli": cli}, None,
+                             note="eups %s: bytes same=%s, writes under the stacks %s, mutators called %s" %
+                                  (" ".join(map(str, cli["argv"])), cli["hash_same"], cli["writes"][:5], cli["calls"][:3]))
             if rec["db"] != prev:
                 ctx.fail("dry_run_listing_unchanged", sub, impl_obs, model_obs, note="the reader's listing changed")
         elif rec["db"] != prev or rec["out"] == "ok" and cmd["op"] == "remove":
@@ -98,20 +129,28 @@ def evaluate(ctx, cases):
 
 
 def guard_map(ctx):
-    fresh = c15_guardmap.summarise(c15_guardmap.extract(common.REPO))
+    sites = c15_guardmap.extract(common.REPO)
+    fresh = c15_guardmap.summarise(sites)
     rec = c15_guardmap.recorded()
-    ctx.hist("guard-map sites", len(fresh))
+    ctx.hist("guard-map rows", len(fresh))
+    if len(fresh) < 20 or not any("UNGUARDED" in r for r in fresh) or not any(r.endswith("| guarded") for r in fresh):
+        raise common.InfraError("guard map degenerate: %d rows (the AST walk no longer finds the methods?)" % len(fresh))
     ctx.case(key={"guard_map": fresh}, nontrivial=True, sample={"guard_map_sites": len(fresh), "unguarded": [r for r in fresh if "UNGUARDED" in r]})
     if fresh != rec:
         gone = [r for r in rec if r not in fresh]
         new = [r for r in fresh if r not in rec]
         ctx.disagree("guard_map", {"guard_map": "python/eups/Eups.py"}, {"only_in_source": new}, {"only_in_recorded": gone},
-                     note="the write sites / noaction guards of declare, undeclare, assignTag, unassignTag, remove differ from the recorded map")
+                     note="the write calls reachable from declare, undeclare, assignTag, unassignTag, remove / whether noaction guards them "
+                          "differ from the recorded summary; guards of the new rows: %s" % ({r: c15_guardmap.explain(sites, r) for r in new[:4]},))
 
 
 def gen_case(rng):
     h = lib_db.gen_history(rng, rng.randint(4, 20), noaction=0.0, remove=0.12, direct_tag=0.05)
-    return with_twins(h)
+    c = with_twins(h)
+    for t in c["cmds"]:
+        if t.get("twin") and rng.random() < 0.3:
+            t["cli"] = True            # also as the user types it: eups <command> -n ...
+    return c
 
 
 def _shrinker():
@@ -134,6 +173,9 @@ def run(ctx):
     dry = sum(v for k, v in ctx.histogram.items() if k.startswith("dry "))
     if ctx.evaluations > 20 and dry < 3 * ctx.evaluations:
         raise common.InfraError("degenerate distribution: %d dry runs in %d histories" % (dry, ctx.evaluations))
+    cli = sum(v for k, v in ctx.histogram.items() if k.startswith("cli dry ") and "/" in k)
+    if ctx.evaluations > 40 and cli < ctx.evaluations // 2:
+        raise common.InfraError("degenerate distribution: %d dry runs through the command line in %d histories" % (cli, ctx.evaluations))
     if ctx.evaluations > 20 and ctx.distinct_nontrivial < ctx.evaluations * 0.3:
         raise common.InfraError("degenerate distribution: %d non-trivial of %d" % (ctx.distinct_nontrivial, ctx.evaluations))
 
